@@ -38,6 +38,31 @@ def strip_comments(src):
     return "\n".join(l.split("--")[0] for l in src.splitlines())
 
 
+# which machine-translated kernels a property's theorem file depends on (Proofs/Gen*.lean prove them equal to the hand model)
+GEN_KERNELS = {"C07": ["Utils", "Poly1305", "Blake2b", "SipHash", "Core"], "C09": ["Utils", "Argon2"], "C12": ["Utils", "Blake2b"], "C18": ["Utils", "Blake2b"]}
+
+
+def regen_kernels():
+    """run tools/rs2lean.py over /repo; returns ({kernel: 'unchanged'|'CHANGED'}, {kernel: error})"""
+    tool = os.path.join(VERIF, "tools", "rs2lean.py")
+    if not os.path.exists(tool):
+        return {}, {}
+    p = subprocess.run(["python3", tool, "--all", REPO, os.path.join(LEAN, "DryocVerif", "Gen")], stdout=subprocess.PIPE, stderr=subprocess.PIPE, text=True)
+    status, err = {}, {}
+    for l in p.stdout.splitlines():
+        if ": " in l:
+            k, v = l.split(": ", 1)
+            status[k] = v
+    for l in p.stderr.splitlines():
+        m = re.match(r"rs2lean: (\w+): (.*)", l)
+        if m:
+            err[m.group(1)] = m.group(2)[:300]
+            status[m.group(1)] = "REJECTED"
+    if p.returncode != 0 and not err:
+        err["translator"] = (p.stderr or p.stdout)[-300:]
+    return status, err
+
+
 def lean_obligations(prop):
     """Build the property module + driver, audit axioms.  Returns dict."""
     res = {"theorems": [], "failed": [], "build_ok": False, "log": "", "forbidden": []}
@@ -56,12 +81,18 @@ def lean_obligations(prop):
                     if FORBIDDEN.search(l):
                         res["forbidden"].append("%s:%d:%s" % (fn, i + 1, l.strip()[:80]))
     with Lock("lake"):
+        # the generated kernels (DryocVerif/Gen/*.lean) are re-translated from /repo's current source on every run
+        gen_status, gen_err = regen_kernels()
+        res["generated"] = gen_status
+        for k in GEN_KERNELS.get(prop, []):
+            if k in gen_err:
+                res["failed"].append("translator (tools/rs2lean.py) rejected the current source of kernel %s: %s" % (k, gen_err[k]))
         rc, out = sh(["lake", "build", "DryocVerif.Properties." + prop, "dryoc_model"], cwd=LEAN, timeout=3000)
         res["log"] = out[-4000:]
         res["build_ok"] = rc == 0
         if rc != 0:
             # which theorem(s) broke: look for error lines
-            res["failed"] = sorted(set(re.findall(r"error: ([^\n]*)", out)))[:20] or ["lake build failed"]
+            res["failed"] += sorted(set(re.findall(r"error: ([^\n]*)", out)))[:20] or ["lake build failed"]
             return res
         audit = os.path.join(WORK, "Audit_%s.lean" % prop)
         with open(audit, "w") as f:
